@@ -211,7 +211,8 @@ func main() {
 			"complex scalars with non-zero imaginary part are not used in the conjugate-invariant ring",
 			"scale metadata compared against the exact rational product/quotient of the documented factors with relative tolerance 2^-100 (rlwe.Scale is a 128-bit float; every operation rounds)",
 			"parameter sets without auxiliary modulus use evaluation keys with a base-2^6 decomposition",
-			"aliasing opOut == op1 is C09's; destination forms here are opOut == op0, XxxNew, fresh opOut",
+			"aliasing opOut == op1 is C09's; destination forms here are opOut == op0, XxxNew, fresh opOut, and a previously used opOut (degree 2, top level, other scale and LogDimensions, unrelated content)",
+			"a receiver of larger degree may keep that degree (rlwe.InitOutputBinaryOp documents max(op0, op1, opOut)) as long as the value is right",
 		},
 		Scenarios:      scenarios,
 		QuickBudget:    150 * time.Second,
